@@ -64,7 +64,12 @@ def oracle_override(c, im):
 _C01_SIGNATURE = C01.signature
 
 
+SIG_UNBOUND = "a local variable read before assignment inside a deferred thunk raises NameError (free variable of the lambda) instead of UnboundLocalError"
+
+
 def signature(c, f):
+    if f.get("kind") == "exception" and (f.get("expected") or [None])[0] == "UnboundLocalError" and (f.get("observed") or [None])[0] == "NameError":
+        return SIG_UNBOUND
     return _C01_SIGNATURE(c, f)
 
 
